@@ -13,8 +13,10 @@ def run(ctx):
     uj = core.use_repo()
     rng = ctx.rng
     tc = transform_corr.TransformCampaign(ctx)
-    for wi in range(ctx.n(70, 1500)):
-        w = cache_corr.World(uj, rng, maxn=ctx.n(8, 10))
+    specs = list(cache_corr.TARGETED.items()) * ctx.n(2, 6)
+    for wi in range(ctx.n(70, 1500) + len(specs)):
+        spec = specs[wi][1] if wi < len(specs) else None
+        w = cache_corr.World(uj, rng, maxn=ctx.n(8, 10), spec=spec)
         for step in range(ctx.n(4, 6)):
             output = rng.choice([None] + list(range(w.n)))
             fresh = cache_corr.random_fresh(w, rng)
@@ -32,7 +34,7 @@ def run(ctx):
                 phys, outnode = res[1]
                 # self-contained: no node of the physical plan refers to the registry; stores are literal arguments
                 clock = w.clock
-                resA = w.run(output, fresh, workers=rng.choice([1, 3]))
+                resA = w.run(output, fresh, workers=rng.choice([1, 3]), transform=rng.choice([None, lambda pl, out: (pl, out)]))
                 logA = sorted((k, i) for k, i, _ in w.log if k in ("call", "read", "write"))
                 afterA = [(s.v) for s in w.stores]
                 for s, (v, t) in zip(w.stores, sigma):
